@@ -37,7 +37,7 @@ let ak (t : z list) : nat =
   nat_of_int (num 0 (skip l))
 
 (* ---------- generators ---------- *)
-let lay_some = [| " "; "\n"; "\t"; "  "; " \n "; "\r\n"; " # c\n"; "//x y\n"; " #\n\t"; "\r"; " // {\n" |]
+let lay_some = [| " "; "\n"; "\t"; "  "; " \n "; "\r\n"; " # c\n"; "//x y\n"; " #\n\t"; "\r"; " // {\n"; " # d\r"; "//k\r\n"; "#\r "; " // e\r\t" |]
 let gen_lay must = if (not must) && chance 45 then [] else cps (pick lay_some)
 let gen_lay_noslash must =                     (* after a slash: no layout that starts with '/' *)
   let l = gen_lay must in match ints l with 47 :: _ -> cps " " | _ -> l
